@@ -44,6 +44,8 @@ type Conn struct {
 	// fault parameters (set before use)
 	FailWriteAt int   // client write fails once Out would exceed this many bytes (-1: never)
 	CutReadAt   int   // the server stream ends (EOF / reset) after this many bytes (-1: never)
+	StallReadAt int   // the server falls silent for good after this many bytes, the connection stays up (-1: never)
+	stalled     bool
 	CutReset    bool  // cut shows as ECONNRESET instead of io.EOF
 	Cuts        []int // absolute offsets: a Read never returns bytes across one of them
 	OneByte     bool  // every Read returns at most one byte
@@ -62,7 +64,7 @@ type Conn struct {
 }
 
 func NewConn() *Conn {
-	return &Conn{rwake: make(chan struct{}), swake: make(chan struct{}), FailWriteAt: -1, CutReadAt: -1, start: time.Now()}
+	return &Conn{rwake: make(chan struct{}), swake: make(chan struct{}), FailWriteAt: -1, CutReadAt: -1, StallReadAt: -1, start: time.Now()}
 }
 
 // kickR / kickS wake every waiter of the read side / write side.
@@ -102,6 +104,16 @@ func (c *Conn) note(call string) {
 func (c *Conn) Deliver(b []byte) {
 	vsched.PointObj("peer.Deliver", c.obj())
 	c.mu.Lock()
+	if c.stalled {
+		b = nil
+	} else if c.StallReadAt >= 0 && c.sent+len(b) >= c.StallReadAt {
+		keep := c.StallReadAt - c.sent
+		if keep < 0 {
+			keep = 0
+		}
+		b = b[:keep]
+		c.stalled = true
+	}
 	if c.CutReadAt >= 0 && c.sent+len(b) >= c.CutReadAt {
 		keep := c.CutReadAt - c.sent
 		if keep < 0 {
